@@ -148,6 +148,35 @@ func genDijk(neg bool) func(r *rng, idx int, st stats) caseOut {
 		n, edges := randGraph(r, st, neg, false)
 		src := r.intn(n)
 		g := buildGraph(n, edges, identity(n))
+		if len(edges) > 1 && r.chance(35) {
+			// the graph was searched BEFORE its last edits, and the edits are made through a
+			// reversed view: r.AddEdgeWeighted(b, a, w) is the edge a -> b, r.RemoveEdge(y, x)
+			// removes x -> y; the recorded search must see the final graph
+			k := 1 + r.intn(len(edges)-1)
+			g = buildGraph(n, edges[:k], identity(n))
+			x, y := r.intn(n), r.intn(n)
+			temp := true
+			for _, e := range edges {
+				if e.a == x && e.b == y {
+					temp = false // only a temporary edge that is in no version of the final graph
+				}
+			}
+			if temp {
+				g.AddEdgeWeighted(&hv{key: x}, &hv{key: y}, 0)
+			}
+			rv := g.Reverse()
+			withRecover(func() { g.Dijkstra(&hv{key: src}) })
+			withRecover(func() { rv.Dijkstra(&hv{key: src}) })
+			for _, e := range edges[k:] {
+				rv.AddEdgeWeighted(&hv{key: e.b}, &hv{key: e.a}, e.w)
+			}
+			if temp {
+				rv.RemoveEdge(&hv{key: y}, &hv{key: x})
+			}
+			if r.chance(50) {
+				g = rv.Reverse() // search through a view of the view
+			}
+		}
 		if r.chance(40) {
 			// edges added to a COPY must not show up in the graph that is searched
 			cp := g.Copy()
@@ -337,6 +366,22 @@ func genTrav(r *rng, idx int, st stats) caseOut {
 		}
 	}
 	g := buildGraph(n, edges, perm)
+	if r.chance(35) {
+		// edges added to a COPY must not show up in the graph that is traversed
+		cp := g.Copy()
+		for i := 0; i < 3; i++ {
+			cp.AddEdge(&hv{key: r.intn(n)}, &hv{key: r.intn(n)})
+		}
+	}
+	if r.chance(35) {
+		// the graph was already listed and analysed, then vertices were replaced by
+		// equal ones (same identity, another Go value)
+		withRecover(func() { g.Vertices(); g.StronglyConnected() })
+		for i := 0; i < 2; i++ {
+			k := r.intn(n)
+			g.AddOverwrite(&hv{key: perm[k], payload: perm[k]})
+		}
+	}
 	start := r.intn(n)
 	var desc, stop []int
 	dmode := r.intn(3)
